@@ -133,6 +133,7 @@ func (p *ECache[PK, K, V]) Clear() int {
 	p.lock.Lock()
 	defer p.lock.Unlock()
 	it := p.items.Iterator()
+	defer it.Close()
 	removed := 0
 	for it.HasNext() {
 		e, ok := it.Next()
